@@ -401,6 +401,7 @@ def part_b(ctx):
                     ctx.ob(pname, "inconclusive", "unknown")
     part_b_vectors(ctx)
     part_b_outputs(ctx)
+    part_b_vector_argument(ctx)
 
 
 REPLAY_QVEC = r'''
@@ -411,24 +412,27 @@ from symplyphysics import Quantity, dimensionless
 from symplyphysics.core.errors import UnitsError
 from symplyphysics.core.vectors.vectors import QuantityVector
 from symplyphysics.core.coordinate_systems.coordinate_systems import CoordinateSystem
-kind = {kind!r}; explicit = {explicit!r}; oks = {oks!r}; zeros = {zeros!r}
-L, T = units.length, units.time
+from sympy.physics.units.definitions.dimension_definitions import angle as angle_type
+BASE = [units.mass, units.length, units.time, units.current, units.temperature, units.amount_of_substance, units.luminous_intensity, angle_type]
+def mkdim(exps):
+    d = dimensionless
+    for b, e in zip(BASE, exps):
+        e = sp.Rational(e)
+        if e != 0: d = d * b**e
+    return d
+kind = {kind!r}; comps_model = {comps!r}; D = {D!r}          # components: (scale, exponent vector); D: declared exponent vector
 cs = CoordinateSystem(getattr(CoordinateSystem.System, kind))
-comps = []
-for i, (ok, z) in enumerate(zip(oks, zeros)):
-    is_angle = CoordinateSystem.is_angle_component(cs.coord_system_type, i)
-    good = dimensionless if is_angle else L
-    comps.append(Quantity(0 if z else 3, dimension=good if ok else T))
-want = all(ok or z for ok, z in zip(oks, zeros))
-if not explicit:
-    # the vector's dimension is that of the first component with non-zero scale
-    first = next((i for i, z in enumerate(zeros) if not z), None)
+comps = [Quantity(sp.Rational(s), dimension=mkdim(d)) for s, d in comps_model]
+def passes(i, s, d):
+    want = ["0"] * 8 if CoordinateSystem.is_angle_component(cs.coord_system_type, i) else D
+    return sp.Rational(s) == 0 or [sp.Rational(x) for x in d[:7]] == [sp.Rational(x) for x in want[:7]]
+want = all(passes(i, s, d) for i, (s, d) in enumerate(comps_model))
 try:
-    QuantityVector(comps, cs, dimension=L if explicit else None); got = True
+    QuantityVector(comps, cs, dimension=mkdim(D)); got = True; msg = ""
 except (TypeError, UnitsError) as e:
-    got = False
-print(kind, "explicit" if explicit else "inferred", oks, zeros, "constructed" if got else "refused", "want", want)
-if explicit and got != want:
+    got = False; msg = str(e)
+print(kind, "components", comps_model, "declared", D, "-> constructed" if got else "-> refused " + msg, "| want constructed:", want)
+if got != want:
     print("REPRODUCED"); sys.exit(1)
 '''
 
@@ -537,6 +541,95 @@ def part_b_outputs(ctx):
                               REPLAY_SAME.format(kind="bare", a=None, r=None, ret=ret if not isinstance(ret, sp.Basic) else float(ret), declared=declared))
 
 
+REPLAY_VECARG = r'''
+import sys
+import sympy as sp
+from sympy.physics import units
+from symplyphysics import Quantity, validate_input
+from symplyphysics.core.errors import UnitsError
+from symplyphysics.core.vectors.vectors import QuantityVector
+scales = {scales!r}; own = {own!r}
+entered = []
+@validate_input(v=units.length)
+def f(v):
+    entered.append(1); return 1
+v = QuantityVector([Quantity(sp.Rational(x), dimension=getattr(units, own)) for x in scales])
+want = own == "length" or all(sp.Rational(x) == 0 for x in scales)
+try:
+    f(v); got = True; msg = ""
+except (TypeError, UnitsError) as e:
+    got = False; msg = str(e)
+print("vector", scales, own, "declared length ->", "entered" if got else "refused " + msg, "| want entered:", want)
+if got != want:
+    print("REPRODUCED"); sys.exit(1)
+'''
+
+
+def part_b_vector_argument(ctx):
+    """a QuantityVector passed to a guarded parameter: every component must have the declared dimension unless it is zero; in
+    particular components that merely CANCEL (3 s, -3 s, 0 s) are not zeros.  Symbolic magnitudes (lifted) and distinguished
+    concrete ones (a structural `sum == 0` never fires on symbols)"""
+    from symplyphysics.core import quantity_decorator as QD
+    from symplyphysics.core.errors import UnitsError
+    from symplyphysics.core.vectors import vectors as VV
+    from sympy.physics import units
+    from symplyphysics import Quantity as RealQuantity
+    # concrete
+    for own in ("time", "length"):
+        for scales in (["3", "-3", "0"], ["1", "1", "-2"], ["0", "0", "0"], ["2", "0", "0"], ["1/2", "-1/2"], ["0", "0"]):
+            entered = []
+
+            def raw(v):
+                entered.append(1)
+                return 1
+            f = QD.validate_input(v=units.length)(raw)
+            try:
+                v = VV.QuantityVector([RealQuantity(sp.Rational(x), dimension=getattr(units, own)) for x in scales])
+                f(v)
+                got = True
+            except (TypeError, UnitsError):
+                got = False
+            want = own == "length" or all(sp.Rational(x) == 0 for x in scales)
+            nm = f"B:vector-argument:{own}:{','.join(scales)}"
+            if got == want:
+                ctx.ob(nm, "discharged", nontrivial=False)
+            else:
+                ctx.violation(f"C04:B:vector-argument:{own}:{','.join(scales)}", f"a vector of {own} components {scales} passed where a length vector is declared was {'admitted' if got else 'refused'}",
+                              REPLAY_VECARG.format(scales=scales, own=own))
+    # lifted: symbolic magnitudes, symbolic own and declared dimensions
+    ses = Session(ctx)
+    name = "B:vector-argument:symbolic"
+    with ses.active(), rebound(*standard_bindings()):
+        Dv, E = ses.dim("Dv"), ses.dim("Ev")
+        ss = [ses.scalar(f"c{i}") for i in range(3)]
+        entered = []
+
+        def call():
+            entered.clear()
+
+            def raw(v):
+                entered.append(1)
+                return 1
+            v = VV.QuantityVector([make_quantity(x, Dv) for x in ss])
+            return QD.validate_input(v=E)(raw)(v)
+        try:
+            paths = explore(call, max_paths=200)
+        except LiftUnsupported as e:
+            ctx.ob(name, "unencoded", str(e))
+            return
+        allzero = z3.And([ses.z(x) == 0 for x in ss])
+        ok = z3.Or(allzero, vec_eq(erase_angle(Dv.vec), erase_angle(E.vec)))
+        for i, p in enumerate(paths):
+            spec = ok if p.kind == "ret" else (z3.Not(ok) if isinstance(p.value, (TypeError, UnitsError)) else z3.BoolVal(False))
+            res, m = ses.check(p.pc + [z3.Not(spec)])
+            if res == "unsat":
+                ctx.ob(f"{name}:path{i}", "discharged")
+            elif res == "sat":
+                ctx.ob(f"{name}:path{i}", "inconclusive", "symbolic candidate (not replayed): " + p.describe()[:60])
+            else:
+                ctx.ob(f"{name}:path{i}", "inconclusive", "unknown")
+
+
 def mkdim_real(exps):
     from sympy.physics import units
     from symplyphysics import dimensionless
@@ -592,10 +685,10 @@ def part_b_vectors(ctx):
                         ctx.ob(pname, "discharged")
                     elif res == "sat":
                         okv = [bool(z3.is_true(m.eval(o, model_completion=True))) for o in oks]
-                        zeros = [model_value(m, ses.z(c.scale_factor)) == 0 for c in comps]
-                        okd = [bool(z3.is_true(m.eval(vec_eq(erase_angle(to_vec(c.dimension)), erase_angle([z3.RealVal(0)] * 8 if CoordinateSystem.is_angle_component(cs.coord_system_type, j) else D.vec)), model_completion=True))) for j, c in enumerate(comps)]
-                        ctx.violation(f"C04:B:QuantityVector:{kind}:{p.describe()}", f"QuantityVector construction {p.describe()} contradicts component gate: ok={okv}",
-                                      REPLAY_QVEC.format(kind=kind, explicit=True, oks=okd, zeros=zeros))
+                        mv = lambda z: str(model_value(m, z))
+                        cm = [(mv(ses.z(c.scale_factor)), [mv(x) for x in to_vec(c.dimension)]) for c in comps]
+                        ctx.violation(f"C04:B:QuantityVector:{kind}:{p.describe()}", f"QuantityVector construction {p.describe()} contradicts component gate: ok={okv}, components {cm}",
+                                      REPLAY_QVEC.format(kind=kind, comps=cm, D=[mv(x) for x in D.vec]))
                     else:
                         ctx.ob(pname, "inconclusive", "unknown")
 
